@@ -196,9 +196,9 @@ def cmd_run(args) -> int:
                 continue
             new_viols.append((s, r))
         for s, r in new_viols:
-            if r["oracle"] in seen_oracles or len(seen_oracles) >= 3:
+            if (r["oracle"], r.get("key")) in seen_oracles or len(seen_oracles) >= 4:
                 continue
-            seen_oracles.add(r["oracle"])
+            seen_oracles.add((r["oracle"], r.get("key")))
             spec0 = r.get("spec", s)
             print(f"violation candidate: {r['oracle']}: {r.get('msg', '')[:600]}", flush=True)
             ms, mr, tried = minimise(pool, mod, spec0, r, tier)
